@@ -72,6 +72,10 @@ def alias_maps(max_aliases: int):
                 out.append(amap)
     out.append({'A': 'A'})
     out.append({'A': 'A', 'I': 'A'})
+    # alias names that begin with an underscore are names like any other
+    out.append({'_i': 'A'})
+    out.append({'_i': 'B', 'J': '_i'})
+    out.append({'__k': 'X'})
     return out
 
 
@@ -126,9 +130,41 @@ def preferred_scenario(cfg) -> List[str]:
     return bad
 
 
+def meta_alias_scenario(cfg) -> List[str]:
+    """Aliases whose target is a variable of the INSTANCE that the class-level NAMES does not list: `status`, `iterations`,
+    a variable added at run time.  Every access path through the alias must hit the target (concrete assertions)."""
+    n = cfg['n']
+    M = type('AliasedMeta', (AliasMixin, Base), {'ALIASES': {'st': 'status', 'it': 'iterations', 'q': 'Q', 'qq': 'q'}})
+    bad: List[str] = []
+    m = M(list(range(2000, 2000 + n)), strict=bool(cfg.get('strict')))
+    m.add_variable('Q', 0.5)
+    lab = 2000 + n - 1
+    steps = [
+        ('attribute read st', lambda: m.st is m.status or np.array_equal(m.st, m.status)),
+        ('attribute read it', lambda: np.array_equal(m.it, m.iterations)),
+        ('attribute read q / qq', lambda: np.array_equal(m.q, m.Q) and np.array_equal(m.qq, m.Q)),
+        ('key read', lambda: np.array_equal(m['st'], m['status']) and np.array_equal(m['qq'], m['Q'])),
+        ('label write it', lambda: (m.__setitem__(('it', lab), 5), m.iterations[-1] == 5)[1]),
+        ('label write st', lambda: (m.__setitem__(('st', lab), 'F'), m.status[-1] == 'F')[1]),
+        ('label read st', lambda: m['st', lab] == 'F' and m['it', lab] == 5),
+        ('attribute write q', lambda: (setattr(m, 'q', 2.5), bool((m.Q == 2.5).all()) and 'q' not in m.__dict__)[1]),
+        ('attribute write st', lambda: (setattr(m, 'st', 'S'), bool((m.status == 'S').all()) and 'st' not in m.__dict__)[1]),
+        ('replace_values it, qq', lambda: (m.replace_values(it=3, qq=7.0), bool((m.iterations == 3).all()) and bool((m.Q == 7.0).all()))[1]),
+        ('key write qq', lambda: (m.__setitem__('qq', 1.25), bool((m.Q == 1.25).all()))[1]),
+        ('no additional storage', lambda: not any(k in m.__dict__ for k in ('_st', '_it', '_q', '_qq', 'st', 'it', 'q', 'qq'))),
+    ]
+    for what, fn in steps:
+        r = _run(fn)
+        if r != ('ret', True):
+            bad.append(f'alias of a variable outside the class NAMES: {what}: {r}')
+    return bad
+
+
 def scenario(cfg, src, symbolic: bool) -> List[str]:
     if cfg['op'] == 'preferred':
         return preferred_scenario(cfg)
+    if cfg['op'] == 'meta_alias':
+        return meta_alias_scenario(cfg)
     amap, op, alias, n = cfg['amap'], cfg['op'], cfg['alias'], cfg['n']
     canon = resolve(amap, alias)
     bad: List[str] = []
@@ -310,6 +346,9 @@ def configs(tier: str):
             for op in ops:
                 for n in ((2 if op in ('slice_write', 'slice_read') else 3,) if tier == 'quick' else (1, 3, 4)):
                     out.append(cfg18(amap=amap, op=op, alias=alias, n=n))
+    for n in (1, 2, 3):
+        for strict in (False, True):
+            out.append(cfg18(amap={'st': 'status', 'it': 'iterations', 'q': 'Q', 'qq': 'q'}, op='meta_alias', alias=None, n=n, strict=strict))
     # PREFERRED_NAMES: every list of up to three distinct names over variables and aliases
     for amap in ({'I': 'A'}, {'I': 'A', 'J': 'A'}, {'I': 'A', 'J': 'I'}, {'I': 'A', 'J': 'A', 'K': 'X'}, {}):
         pool = VARS + sorted(amap)
